@@ -18,3 +18,14 @@ for r in 'toCamelKey -> camelize' 'injectAttribute -> setAttribute' 'injectEleme
 go build ./...
 ( echo "# variant: ALL-unexported-renames (keep)"; diff -ruN --exclude=.git --exclude=logs --exclude=benchmarks /repo . | sed 's#^--- /repo/#--- a/#; s#^+++ \./#+++ b/#' | grep -v '^diff -ruN' ) > /verif/variants/keep/ALL-unexported-renames.patch || true
 echo "written: $(wc -l < /verif/variants/keep/ALL-unexported-renames.patch) lines"
+# second variant: parameters, locals and unexported struct fields renamed
+cd /; rm -rf "$D"; D="$(mktemp -d "${TMPDIR:-/var/tmp}/ren-XXXXXX")"
+rsync -a --exclude .git --exclude logs --exclude benchmarks /repo/ "$D/"
+cd "$D"
+for r in 'ctx -> cx' 'level -> lvl' 'fields -> fs' 'skip -> depth' 'format -> fmtstr' 'logger -> lg' 'enc -> en' 'key -> k0' \
+ 'val -> v0' 'buf -> bb' 'subType -> sub' 'mainType -> main0' 'action -> act' 'data -> src' 'name -> nm' 'prefix -> pfx'; do
+  gofmt -r "$r" -w *.go expr/parse.go
+done
+go build ./...
+( echo "# variant: ALL-param-renames (keep)"; diff -ruN --exclude=.git --exclude=logs --exclude=benchmarks /repo . | sed 's#^--- /repo/#--- a/#; s#^+++ \./#+++ b/#' | grep -v '^diff -ruN' ) > /verif/variants/keep/ALL-param-renames.patch || true
+echo "written: $(wc -l < /verif/variants/keep/ALL-param-renames.patch) lines"
